@@ -141,14 +141,31 @@ where
                 }
             };
             tokio::select! {
-                () = shutdown => { break Ok(()); }
+                () = shutdown => {
+                    #[cfg(humphrey_verif)]
+                    crate::thread::verif::app_event(crate::thread::verif::AppEvent::SignalReceived);
+                    #[cfg(humphrey_verif)]
+                    crate::thread::verif::app_event(crate::thread::verif::AppEvent::LoopExit);
+                    break Ok(());
+                }
                 s = socket.accept() => {
+                    #[cfg(humphrey_verif)]
+                    crate::thread::verif::app_event(match &s {
+                        Ok((s, _)) => crate::thread::verif::AppEvent::AcceptReturned(
+                            s.peer_addr().ok().map(|a| a.port()),
+                        ),
+                        Err(_) => crate::thread::verif::AppEvent::AcceptFailed,
+                    });
                     match s {
                         Ok((mut stream, _)) => {
                             let cloned_state = self.state.clone();
 
                             // Check that the client is allowed to connect
                             if (self.connection_condition)(&mut stream, cloned_state) {
+                                #[cfg(humphrey_verif)]
+                                crate::thread::verif::app_event(
+                                    crate::thread::verif::AppEvent::Condition(true),
+                                );
                                 let cloned_state = self.state.clone();
                                 let cloned_monitor = self.monitor.clone();
                                 let cloned_subapps = subapps.clone();
@@ -177,7 +194,15 @@ where
                                     )
                                         .await
                                 });
+                                #[cfg(humphrey_verif)]
+                                crate::thread::verif::app_event(
+                                    crate::thread::verif::AppEvent::Executed,
+                                );
                             } else {
+                                #[cfg(humphrey_verif)]
+                                crate::thread::verif::app_event(
+                                    crate::thread::verif::AppEvent::Condition(false),
+                                );
                                 self.monitor.send(
                                     Event::new(EventType::ConnectionDenied)
                                         .with_peer_result(stream.peer_addr()),
